@@ -762,6 +762,43 @@ def crash_part(ctx, tabs, rng, n, scratch):
                       "(after SIGINT grog prints 'Received signal, exiting...' and keeps evaluating; further SIGINTs are swallowed)",
                       {"kind": "oracle", "oracle": "no hang: cancellation stops the loaders", "file": "BUILD.star", "corruption": "runaway-program, context cancelled after 1 s",
                        "text": runaway, "impl": r}, signature="starlark:ignores-cancellation")
+    # long-running code inside load()ed modules (one level and nested), cancelled both ways: by the command's context (SIGINT / SIGTERM)
+    # and by a neighbouring package file that fails to load (LoadPackages cancels its load context on the first error)
+    from concurrent.futures import ThreadPoolExecutor
+    body = "def f():\n    for a in range(1000000):\n        for b in range(1000000):\n            for c in range(1000000):\n                pass\n"
+    mod_run = body + "f()\nx = 1\n"
+    load_lib = "load(\"lib.star\", \"x\")\ntarget(name = \"a\", command = \"true\")\n"
+    nested = [["p/BUILD.star", "load(\"a.star\", \"y\")\ntarget(name = \"a\", command = \"true\")\n"], ["p/a.star", "load(\"sub/b.star\", \"x\")\ny = x\n"],
+              ["p/sub/b.star", mod_run]]
+    absolute = [["p/BUILD.star", "load(\"//tools/lib.star\", \"x\")\ntarget(name = \"a\", command = \"true\")\n"], ["tools/lib.star", mod_run]]
+    bad_neighbour = ["q/BUILD.json", "{\"targets\": [{\"name\": \"n\", \"command\": \"true\", \"dependencies\": [\"not a label\"]}]}"]
+    scen = [("module, context cancelled", [["p/BUILD.star", load_lib], ["p/lib.star", mod_run]], 700),
+            ("nested modules, context cancelled", nested, 700),
+            ("//-module, context cancelled", absolute, 700),
+            ("module, neighbouring file fails", [["p/BUILD.star", load_lib], ["p/lib.star", mod_run], bad_neighbour], 0),
+            ("nested modules, neighbouring file fails", nested + [bad_neighbour], 0),
+            ("main file, neighbouring file fails", [["p/BUILD.star", runaway], bad_neighbour], 0)]
+
+    def one(sc):
+        what, files, cancel_ms = sc
+        req = {"op": "load.packages", "dir": os.path.join(scratch, "rw" + str(abs(hash(what)) % 100000)), "files": files, "workers": 4, "timeout_s": 8}
+        if cancel_ms:
+            req["cancel_after_ms"] = cancel_ms
+        os.makedirs(req["dir"], exist_ok=True)
+        return G.run_resilient(ctx, [req])[0]
+    with ThreadPoolExecutor(max_workers=3) as ex:
+        outs = list(ex.map(one, scen))
+    for (what, files, cancel_ms), r in zip(scen, outs):
+        fz["cases"] += 1
+        fz["by_kind"]["runaway-module-cancelled"] = fz["by_kind"].get("runaway-module-cancelled", 0) + 1
+        ctx.coverage["evaluations"] += 1
+        desc = bad_reply(r)
+        if desc or not r.get("err"):
+            fz["panics_or_hangs"] += 1
+            ctx.violation(f"long-running Starlark code ({what}): loading does not stop although it was cancelled",
+                          {"kind": "oracle", "oracle": "no hang: cancellation stops the loaders, also inside load()ed modules", "files": files,
+                           "cancelled_by": "context after %d ms" % cancel_ms if cancel_ms else "a neighbouring package file that fails to load", "impl": r},
+                          signature="starlark:ignores-cancellation")
     # corrupted Makefiles / scripts also go through the scanner correspondence
     scanner_part(ctx, tabs, scan_texts, scratch)
     return True
